@@ -1498,7 +1498,7 @@ def _fixStringValue(s, p):
             hexc = 0
             j = 0
             i += 1
-            while j < 4:
+            while j < 4 and i + j < len(s):
                 c = s[i + j]
                 c = c.upper()
                 if not c.isdigit() and c not in 'ABCDEF':
